@@ -212,7 +212,17 @@ def run(rep, tier, seed, proof_ok):
                 "the same evaluation, an earlier evaluation, never; + the producer kept under two paths, the loaded one before / after the reader} x {path as string literal, through a str variable, through a pathlib.Path variable} x {fresh, populated store} x {loaded value only returned, loaded "
                 "value passed to a nested keep} (+ the same path loaded two / three times by one reader); history: evaluate twice, change the producer's tracked variable, (re-produce,) evaluate "
                 "twice; compared with the dds-free reference (value most recently kept in program order), with the Coq model, and "
-                "with the expectation that read-before-produce / never-produced is rejected by a DDS error; exhaustive over this matrix")
+                "with the expectation that read-before-produce / never-produced is rejected by a DDS error; exhaustive over this matrix; "
+                "thread dimension (c09_threads.py): the thread that executes the dds.load / the kept reader / the producer's dds.keep x the same "
+                "placements x producers x {fresh, populated} x {local, memory, local+lru store} x {dds.eval called from the main thread, from another "
+                "thread}: the helper that loads the path (mentioned by name), the reader and / or the producer's keep run on {the caller's thread, "
+                "ThreadPoolExecutor.submit, .map, threading.Thread + join, a pool that outlives the evaluation, a thread started by a thread, a "
+                "Timer; two paths loaded in parallel on one pool with submit / map} and are waited for, so that program order stays defined; same "
+                "history; compared with the dds-free execution of the same files (every evaluation and the paths read outside afterwards), with the "
+                "expectations that an unchanged kept reader / producer is served from the store, that the kept reader runs again after the change, "
+                "and that read-before-produce / never-produced is rejected by a DDS error and commits nothing; one deterministic slice per "
+                "role (load / reader / keep on every kind of thread, rejected and earlier-evaluation producers from every kind of thread) + seeded "
+                "random points of the whole product (10 quick, 400 thorough)")
     jobs = []
     for placement, producer, populated, argp in itertools.product(PLACEMENTS, PRODUCERS, (False, True), (False, True)):
         if populated and producer in ("earlier-evaluation", "never"):
@@ -280,10 +290,15 @@ def run(rep, tier, seed, proof_ok):
         if not rejected and job["placement"] in ("kept-function", "data-function") and len(calls) >= 2 and calls[0]["impl"]["out"].startswith("ok:"):
             if "reader" in calls[1]["impl"]["log"]:
                 rep.violation("reader-recomputed-unchanged", f"{name}: the kept reader ran again although /p serves the same result", replay)
-    rep.extra["input_distribution"] = {"scenarios": len(jobs), "outcomes_of_root_calls": outcomes}
+    import c09_threads
+    rep.extra["input_distribution"] = {"scenarios": len(jobs), "outcomes_of_root_calls": outcomes, "threads": c09_threads.run(rep, tier, seed, proof_ok)}
     rep.sample({"scenario": "root/keep-before/fresh/ret", "events_kinds": [e[0] if e[0] != "act" else e[1]["a"] + ":" + e[1].get("fn", "") for e in jobs[0]["events"]]})
 
 
 def replay(path):
+    r = json.load(open(path))["replay"]
+    if "tscen" in r:
+        import c09_threads
+        return c09_threads.replay(r)
     import c01
     return c01.replay(path)
